@@ -402,6 +402,9 @@ def check_resize_records(m, f, rule):
 
 def check_single_lookup(m, f, rule):
     rh_loads = [i for i in f.all_insts() if i.op == 'load' and fld(f, i) == 'bucket.rh.hash']
+    # the table's state when the lookup was entered: the pending marker as first read (a later read, e.g. by a sweep
+    # that checks for itself, says nothing about the state the lookup was called in)
+    rh_loads = [L for L in rh_loads if all(f.dominates(L, M) for M in rh_loads)] or rh_loads
     bad = set()
 
     def transfer(ins, n, ps):
